@@ -486,6 +486,9 @@ func (tr *Tracer) generalise(st *state, f *frame, h, from *ssa.BasicBlock) {
 		}
 	}
 	_ = anyCall
+	for id := range st.escaped {
+		st.dirty[id] = true
+	}
 	for k, c := range st.store {
 		r := c.addr.root()
 		if r.Kind == KAlloc {
